@@ -2,7 +2,8 @@
 """usage: mkseeder2.py <PID> [K] -> round-2 seeder prompt that lists the round-1 changes to avoid."""
 import glob, json, os, subprocess, sys
 pid = sys.argv[1]; k = sys.argv[2] if len(sys.argv) > 2 else "5"
-wt = "/tmp/seed2-%s" % pid.lower(); out = "/tmp/seedout2-%s" % pid.lower()
+rnd = sys.argv[3] if len(sys.argv) > 3 else "2"
+wt = "/tmp/seed%s-%s" % (rnd, pid.lower()); out = "/tmp/seedout%s-%s" % (rnd, pid.lower())
 p = [json.loads(l) for l in open("/verif/properties.jsonl") if json.loads(l)["id"] == pid][0]
 if not os.path.exists(wt):
     subprocess.run(["git", "-C", "/repo", "worktree", "add", "--detach", wt, "HEAD"], check=True, stdout=subprocess.DEVNULL)
@@ -14,6 +15,6 @@ for d in sorted(glob.glob("/verif/seeded/%s-*" % pid)):
     prev.append("- files %s: %s" % (m.get("files"), str(m.get("needs", ""))[:260].replace("\n", " ")))
 t += "\n\nALREADY TRIED IN AN EARLIER ROUND (do NOT repeat these or close variants of them; find DIFFERENT functions, clauses and trigger conditions —\nlook for the less obvious code paths that implement the property: alternative entry points, subclasses, helper functions, error paths,\ncaches, serialization hooks, boundary values, interactions between two features):\n" + "\n".join(prev) + "\n"
 t += "\nNote: the code base has received many small bug fixes recently (see `git -C %s log --oneline | head -80`); do not simply revert one of those fixes.\n" % wt
-fn = "/tmp/seedprompt2-%s.txt" % pid.lower()
+fn = "/tmp/seedprompt%s-%s.txt" % (rnd, pid.lower())
 open(fn, "w").write(t)
 print(fn)
